@@ -12,8 +12,9 @@ from ..kernel import HarnessError
 from ..space import ops
 
 PID = "C11"
+ISOLATE = True  # every case (history) in its own forked process, from the same never-executed generator state
 LEVEL = "model_checking"
-RULE = ("per core layout (top-level core, pk.core, pk.shared.core, pk.a.b.core, vendor-prefixed acme_core next to client acme): breadth-first search over "
+RULE = ("per core layout (top-level core, pk.core, pk.shared.core, pk.a.b.core, vendor-prefixed acme_core next to client acme, core owned by the first client and reused by later ones): breadth-first search over "
         "generation histories; events = gen(client in {c1,c2[,c3]}, spec in {404, 422+500, none[, 404+500]}, force in {True,False}); each transition runs the real "
         "generator on a copy of the project tree of the source state; states are canonicalised to (client -> spec last generated, exception classes in the core, "
         "registry contents) and the search runs to fixpoint (quick: 2 clients) or to depth 4 (thorough: 3 clients). After every transition every client generated so "
@@ -33,6 +34,8 @@ LAYOUTS = {
     "pk.shared.core": {"core": "pk.shared.core", "clients": ["pk.c1", "pk.c2", "pk.c3"]},
     "pk.a.b.core": {"core": "pk.a.b.core", "clients": ["pk.c1", "pk.c2", "pk.c3"]},
     "acme_core": {"core": "acme_core", "clients": ["acme", "billing", "acme_core_tools"]},
+    # the first client is generated with its DEFAULT core (no core_package given); later clients point at <first>.core
+    "first-client-core": {"core": "inventory.core", "clients": ["inventory", "billing", "shipping"], "default_for": "inventory"},
 }
 SPECS = {
     "s404": {"200": "json-model", "404": "none"},
@@ -94,7 +97,7 @@ def run_case(case):
     tier = case["tier"]
     clients = lay["clients"][:2] if tier == "quick" else lay["clients"]
     specs = ["s404", "s422+500", "snone"] if tier == "quick" else list(SPECS)
-    if tier == "quick" and case["layout"] in ("pk.shared.core", "pk.a.b.core", "acme_core"):
+    if tier == "quick" and case["layout"] in ("pk.shared.core", "pk.a.b.core", "acme_core", "first-client-core"):
         specs = ["s404", "s422+500"]
     max_depth = None if tier == "quick" else 4
     events = [(c, s, f) for c in clients for s in specs for f in (True, False)]
@@ -129,7 +132,8 @@ def run_case(case):
                 tdir = new_dir()
                 shutil.copytree(sdir, tdir, symlinks=True)
                 root = os.path.join(tdir, "proj")
-                files, err = sandbox.generate(docs[s], root, output_package=c, core_package=lay["core"], force=force, spec_name=f"{s}.json")
+                core_arg = None if lay.get("default_for") == c else lay["core"]
+                files, err = sandbox.generate(docs[s], root, output_package=c, core_package=core_arg, force=force, spec_name=f"{s}.json")
                 transitions += 1
                 ev = f"gen({c},{s},{'force' if force else 'noforce'})"
                 h2 = hist + [ev]
